@@ -208,4 +208,64 @@ theorem oneGroup_shard (name : List Char) (hn : name ≠ []) : oneGroup shardLit
   have : ¬ (name.length = 0) := by cases name with | nil => exact absurd rfl hn | cons _ _ => simp
   simp [this]
 
+/-! ### runes -/
+
+theorem isCont_slash : isCont '/' = false := by decide
+
+theorem runeWidth_before_slash (b : Char) (r : List Char) : runeWidth (b :: '/' :: r) = 1 := by
+  unfold runeWidth
+  simp only []
+  split
+  · rfl
+  · split
+    · simp [isCont_slash]
+    · split
+      · cases r with
+        | nil => rfl
+        | cons c cs =>
+          have : ¬ ((if b.toNat = 224 then 160 else 128) ≤ 47) := by split <;> omega
+          simp
+          intro h1; exact absurd h1 this
+      · split
+        · cases r with
+          | nil => rfl
+          | cons c cs =>
+            cases cs with
+            | nil => rfl
+            | cons d ds =>
+              have : ¬ ((if b.toNat = 240 then 144 else 128) ≤ 47) := by split <;> omega
+              simp
+              intro h1; exact absurd h1 this
+        · rfl
+
+theorem runeWidth_head (a b : Char) (r : List Char) (h : twoByteHead (a :: b :: '/' :: r) = false) :
+    runeWidth (a :: b :: '/' :: r) = 1 := by
+  unfold runeWidth
+  simp only []
+  split
+  · rfl
+  · split
+    · rename_i h2
+      have : isCont b = false := by
+        simp only [twoByteHead, Bool.and_eq_false_iff, decide_eq_false_iff_not] at h
+        rcases h with (h | h) | h
+        · omega
+        · omega
+        · exact h
+      simp [this]
+    · split
+      · simp [isCont_slash]
+      · split
+        · cases r with
+          | nil => rfl
+          | cons d ds => simp [isCont_slash]
+        · rfl
+
+/-- `..` on `a b / r` consumes exactly `a b` unless they form one two-byte character -/
+theorem dropRune_two (a b : Char) (r : List Char) (h : twoByteHead (a :: b :: '/' :: r) = false)
+    (ha : a ≠ '\n') (hb : b ≠ '\n') :
+    (dropRune (a :: b :: '/' :: r)).bind dropRune = some ('/' :: r) := by
+  simp only [dropRune, runeWidth_head a b r h, beq_iff_eq, ha, if_false, List.drop_succ_cons, List.drop_zero,
+    Option.bind_some, runeWidth_before_slash, hb]
+
 end KrakenModel.Proof.C36
